@@ -187,6 +187,10 @@ NOTES = {
     'C19-opgraphnode-keeps-edge-lists': 'round 5, first run: MISSED (engine F refuted no_capture, but no bounded case confirmed it). The r_C19 constructor history builds node 0 of two graphs from the same caller-owned edge-id lists',
     'C08-qr-keeps-integer-dtype': 'round 5, first run: MISSED by the C08 check (the C11 check has integer matrices; no TDVP/DMRG case used integer-dtype tensors). r_C08, r_C09, r_C10 now also start from integer-dtype states',
     'C08-twosite-signature-order': 'round 5, first run: MISSED (every stand-in passed the optional parameters by keyword). r_C08 and r_C10 also use the positional form of the documented signatures',
+    'C01-mpo-qphys-cache': 'round 6, first run: MISSED (10 proofs lost, no failing input). r_C01 zeroes the quantum numbers of the canonical object, perturbs every entry and orthonormalizes in the other direction',
+    'C01-mps-inplace-next': 'round 6, first run: MISSED. r_C01 puts the same array object on several sites; engine F treats `out=` (and scipy `overwrite_*=True`) as a write into that argument: `modifies` of local_orthonormalize_left_qr is refuted as a definite write',
+    'C14-arnoldi-inplace-normalize': 'round 6, first run: MISSED. r_C14 has integer-dtype start vectors; engine Z models np.array and has the obligation that an in-place operator keeps the kind of its array (refuted: real into an array of unknown kind)',
+    'C14-lanczos-skip-normalization': 'round 6, first run: MISSED (the orthonormality proof was lost, no failing input). r_C14 has start vectors of norm 1 + 6e-9',
     'C17-optree-node-children-alias': 'round 5, first run: MISSED. r_C17 builds two tree nodes from one list and extends one; engine F distinguishes keeping the *elements* of a list (allowed for nodes) from keeping the list itself',
     'C06-zero-coeff-filter-tolerance': 'first run: MISSED. r_C06 now includes parameter points scaled by 1e-9 ... 1e+12 (every parameter value is legal)',
 }
